@@ -58,38 +58,34 @@ Definition has_external (g : graph) (cl : list nat) (p q : nat) : bool :=
 
 (* numbering: walking the list, each output port takes the next processor output if it has an external
    consumer and the next temporary if it has an internal one; each input port fed from outside takes
-   the next processor input *)
-Record numbering := mkNum { n_out : list (nat * nat * nat);   (* (p, q, processor output) *)
-                            n_tmp : list (nat * nat * nat);   (* (p, q, temporary) *)
-                            n_in : list (nat * nat * nat) }.  (* (p, port, processor input) *)
-Definition lookup3 (l : list (nat * nat * nat)) (p q : nat) : option nat :=
-  match find (fun x => Nat.eqb (fst (fst x)) p && Nat.eqb (snd (fst x)) q) l with Some x => Some (snd x) | None => None end.
+   the next processor input.  The three counters advance independently, so a port's number is its
+   position in the list of the ports of its kind, in walking order. *)
+Definition inst_at (g : graph) (p : nat) : inst := nth p (insts g) (mkInst (mkFrag [] [] []) []).
+Definition fed_from_outside (g : graph) (cl : list nat) (p j : nat) : bool :=
+  match nth_error (isrc (inst_at g p)) j with
+  | Some (SOut p' _) => negb (inside cl p')
+  | Some (SExt _) => true
+  | None => false
+  end.
+Definition ports_where (g : graph) (cl : list nat) (pred : nat -> nat -> bool) (count : inst -> nat) : list (nat * nat) :=
+  flat_map (fun p => filter (fun pq => pred (fst pq) (snd pq)) (map (pair p) (seq 0 (count (inst_at g p))))) cl.
+Definition out_ports (g : graph) (cl : list nat) := ports_where g cl (has_external g cl) (fun i => length (resout (ifrag i))).
+Definition tmp_ports (g : graph) (cl : list nat) := ports_where g cl (has_internal g cl) (fun i => length (resout (ifrag i))).
+Definition in_ports (g : graph) (cl : list nat) := ports_where g cl (fed_from_outside g cl) (fun i => length (isrc i)).
 
-Definition number_inst (g : graph) (cl : list nat) (acc : numbering * (nat * nat * nat)) (p : nat) : numbering * (nat * nat * nat) :=
-  let '(nm, (co, ct, ci)) := acc in
-  let i := nth p (insts g) (mkInst (mkFrag [] [] []) []) in
-  let '(nm1, co1, ct1) :=
-    fold_left (fun a q => let '(nm, co, ct) := a in
-                          let ex := has_external g cl p q in let it := has_internal g cl p q in
-                          (mkNum (if ex then n_out nm ++ [(p, q, co)] else n_out nm)
-                                 (if it then n_tmp nm ++ [(p, q, ct)] else n_tmp nm) (n_in nm),
-                           if ex then S co else co, if it then S ct else ct))
-              (seq 0 (length (resout (ifrag i)))) (nm, co, ct) in
-  let '(nm2, ci2) :=
-    fold_left (fun a js => let '(nm, ci) := a in
-                           match snd js with
-                           | SOut p' _ => if inside cl p' then (nm, ci)
-                                          else (mkNum (n_out nm) (n_tmp nm) (n_in nm ++ [(p, fst js, ci)]), S ci)
-                           | SExt _ => (mkNum (n_out nm) (n_tmp nm) (n_in nm ++ [(p, fst js, ci)]), S ci)
-                           end)
-              (combine (seq 0 (length (isrc i))) (isrc i)) (nm1, ci) in
-  (nm2, (co1, ct1, ci2)).
-Definition numbering_of (g : graph) (cl : list nat) : numbering :=
-  fst (fold_left (number_inst g cl) cl (mkNum [] [] [], (0, 0, 0))).
+Fixpoint index_of2 (x : nat * nat) (l : list (nat * nat)) : option nat :=
+  match l with
+  | [] => None
+  | y :: r => if Nat.eqb (fst x) (fst y) && Nat.eqb (snd x) (snd y) then Some 0 else option_map S (index_of2 x r)
+  end.
+
+Record numbering := mkNum { n_out : list (nat * nat); n_tmp : list (nat * nat); n_in : list (nat * nat) }.
+Definition numbering_of (g : graph) (cl : list nat) : numbering := mkNum (out_ports g cl) (tmp_ports g cl) (in_ports g cl).
+Definition lookup3 (l : list (nat * nat)) (p q : nat) : option nat := index_of2 (p, q) l.
 
 (* the code for one instance, temporaries still symbolic: register [tbase + t] stands for temporary t *)
 Definition inst_code (g : graph) (cl : list nat) (nm : numbering) (tmp : nat -> nat) (p : nat) : list instr :=
-  let i := nth p (insts g) (mkInst (mkFrag [] [] []) []) in
+  let i := inst_at g p in
   let f := ifrag i in
   let ports := combine (seq 0 (length (isrc i))) (combine (resin f) (isrc i)) in
   flat_map (fun x => match lookup3 (n_in nm) p (fst x) with Some k => [II2r (fst (snd x)) k] | None => [] end) ports ++
